@@ -290,6 +290,10 @@ def attach_resolution_context(
 
     if scopes:
         _store_context(expr, ResolutionContext(scopes=scopes))
+    elif owner is not None:
+        # The owner has no scopes (any more): a chain stored on an earlier
+        # access describes layers that no longer enclose the expression.
+        clear_resolution_context(expr)
     return expr
 
 
